@@ -14,6 +14,7 @@ CONSTANTS
   MaxOld = 1
   Transports <- TrIP
   ScmpTypes <- ScmpNone
+  HdrStates <- HdrAll
 VIEW viewU
 INVARIANTS SentLeavesPool FieldCount NoShrink PoolCap StaysFull RespCount FreshCookiesOpen
 PROPERTIES SingleUse Answered Fresh
